@@ -234,4 +234,81 @@ def glueFrom (x : St2) : List Ev2 → List Ev
 
 def glue (es : List Ev2) : List Ev := glueFrom { s := init, torn := false } es
 
+/-! ### the journaled checkpoint (`io/journal.rs`): steal allowed, checkpoint in four durable steps
+
+Between checkpoints the file may be overwritten in place at any time (`scribble`: an evicted dirty page, or some of the
+page writes of a checkpoint in progress) — read as is, it is then an arbitrary state.  The pre-image journal returns it
+to the last checkpoint (`Model/Journal.lean`, `restore_returns_checkpoint`), so recovery starts from `s.stable` until
+the journal is marked DONE; from then on the file is the new checkpoint and the log is obsolete. -/
+
+inductive Phase where
+  | idle        -- journal ACTIVE, describing `s.stable`
+  | pages       -- … and every page of the new checkpoint (and the header) is in the file
+  | done        -- journal DONE
+  | dropped     -- log truncated
+deriving Repr, DecidableEq
+
+inductive Ev3 where
+  | append (r : Rec)
+  | force
+  | ack (t : Nat)
+  | scribble (g : DbState)   -- in-place page writes: the file, read as is, becomes `g` (anything)
+  | ckptPages                -- the log is forced, then dirty pages and header reach the file
+  | ckptDone                 -- the journal is marked DONE
+  | ckptDropLog              -- the log is truncated
+  | ckptReset                -- the journal is restarted for the new checkpoint
+deriving Repr
+
+structure St3 where
+  s : St             -- `s.stable`: what the journal restores the file to
+  file : DbState     -- the file read as is
+  phase : Phase
+deriving Repr
+
+def step3 (x : St3) : Ev3 → St3
+  | .append r => if x.phase = .idle then { x with s := step x.s (.append r) } else x
+  | .force => if x.phase = .idle then { x with s := step x.s .force } else x
+  | .ack _ => x
+  | .scribble g => if x.phase = .idle then { x with file := g } else x
+  | .ckptPages =>
+    if x.phase = .idle then
+      let all := x.s.log ++ x.s.buf
+      if quiescent all then { s := { x.s with log := all, buf := [] }, file := replay x.s.stable all, phase := .pages }
+      else { x with s := step x.s .force }
+    else x
+  | .ckptDone => if x.phase = .pages then { x with phase := .done } else x
+  | .ckptDropLog => if x.phase = .done then { x with s := { x.s with log := [], buf := [] }, phase := .dropped } else x
+  | .ckptReset => if x.phase = .dropped then { s := { stable := x.file, log := [], buf := [] }, file := x.file, phase := .idle } else x
+
+def init3 : St3 := { s := init, file := [], phase := .idle }
+def run3 (es : List Ev3) : St3 := es.foldl step3 init3
+
+def crash3 (x : St3) : St3 := { x with s := crash x.s }
+
+/-- `Database::open`: an ACTIVE journal returns the file to the last checkpoint and the log is replayed onto it;
+    a DONE journal means the file is the checkpoint and the log is dropped. -/
+def recover3 (x : St3) : DbState :=
+  match x.phase with
+  | .idle => recover x.s
+  | .pages => recover x.s
+  | .done => x.file
+  | .dropped => x.file
+
+/-- what the atomic machine is told -/
+def emit3 (x : St3) : Ev3 → List Ev
+  | .append r => if x.phase = .idle then [.append r] else []
+  | .force => if x.phase = .idle then [.force] else []
+  | .ack t => [.ack t]
+  | .scribble _ => []
+  | .ckptPages => if x.phase = .idle then [.force] else []
+  | .ckptDone => if x.phase = .pages then [.checkpoint] else []
+  | .ckptDropLog => []
+  | .ckptReset => []
+
+def glue3From (x : St3) : List Ev3 → List Ev
+  | [] => []
+  | e :: es => emit3 x e ++ glue3From (step3 x e) es
+
+def glue3 (es : List Ev3) : List Ev := glue3From init3 es
+
 end AxVerif.Recovery
